@@ -1968,9 +1968,21 @@ func ruleT14(c *an.Ctx) {
 		c.Info("T14", "anchor((*BindStms).compile)", 0, "not found: not decided")
 		return
 	}
-	scan := func(in ssa.Instruction) bool {
+	direct := func(in ssa.Instruction) bool {
 		lk, ok := in.(*ssa.Lookup)
-		return ok && lk.CommaOk && an.LoadsField(lk.X, tableF)
+		return ok && an.LoadsField(lk.X, tableF)
+	}
+	scan := func(in ssa.Instruction) bool {
+		if direct(in) {
+			return true
+		}
+		// a predicate method that does the lookup (bindings.isBound(id))
+		cl := an.AsCallAny(in)
+		if cl == nil {
+			return false
+		}
+		h := cl.Common().StaticCallee()
+		return h != nil && h.Blocks != nil && h.Pkg == fn.Pkg && h != fn && len(h.Blocks) <= 4 && an.MayDo(h, direct, 0)
 	}
 	entry := loopEntryBarrier(fn, scan)
 	n := 0
@@ -2099,6 +2111,69 @@ func ruleO8(c *an.Ctx) {
 				c.Check("O8", fmt.Sprintf("reference-element-clears-every-verdict@%s#%d", an.FnName(fn), n), acc.Pos(), isFalse,
 					"after an element that is a reference (known only at run time) one of the loop's verdicts can still be true: a collection such as [FLAG.skip, false] is classified `all false`, the control binding is dropped, the producer of the flag is no prenode of the call any more and the call is never disabled")
 			}
+		}
+	}
+	// the same classification kept in a small struct with an `add` method (a tally with one boolean
+	// field per verdict): the arm for *RefExp writes every boolean field of the receiver
+	for _, fn := range c.P.FuncsOf(pkgSyntax) {
+		recv := fn.Signature.Recv()
+		if recv == nil || !strings.Contains(strings.ToLower(recv.Type().String()), "disable") || len(fn.Params) == 0 {
+			continue
+		}
+		st := derefStructT(recv.Type())
+		if st == nil {
+			continue
+		}
+		var boolFields []string
+		for i := 0; i < st.NumFields(); i++ {
+			if b, ok := st.Field(i).Type().Underlying().(*types.Basic); ok && b.Kind() == types.Bool {
+				boolFields = append(boolFields, st.Field(i).Name())
+			}
+		}
+		if len(boolFields) < 2 {
+			continue
+		}
+		var refArm *ssa.BasicBlock
+		for _, b := range fn.Blocks {
+			if len(b.Instrs) == 0 {
+				continue
+			}
+			iff, ok := b.Instrs[len(b.Instrs)-1].(*ssa.If)
+			if !ok {
+				continue
+			}
+			ex, ok := iff.Cond.(*ssa.Extract)
+			if !ok || ex.Index != 1 {
+				continue
+			}
+			ta, ok := ex.Tuple.(*ssa.TypeAssert)
+			if !ok {
+				continue
+			}
+			if nm, _ := derefNamed(ta.AssertedType); nm == "RefExp" {
+				refArm = b.Succs[0]
+			}
+		}
+		if refArm == nil {
+			continue
+		}
+		written := map[string]bool{}
+		for _, b := range fn.Blocks {
+			if b != refArm && !refArm.Dominates(b) {
+				continue
+			}
+			for _, in := range b.Instrs {
+				if stI, ok := in.(*ssa.Store); ok {
+					if fa, ok := stI.Addr.(*ssa.FieldAddr); ok && an.Strip(fa.X) == ssa.Value(fn.Params[0]) {
+						written[st.Field(fa.Field).Name()] = true
+					}
+				}
+			}
+		}
+		for _, bf := range boolFields {
+			n++
+			c.Check("O8", "reference-element-clears-every-verdict@"+an.FnName(fn)+"."+bf, fn.Pos(), written[bf],
+				"the arm for an element that is a reference (known only at run time) does not update the verdict field "+bf+": a collection such as [FLAG.skip, false] can still be classified `all false`, the control binding is dropped and the call no longer waits for the producer of the flag")
 		}
 	}
 	c.Floor("O8", "verdicts of the disable-collection classifiers", n, 2)
@@ -2258,34 +2333,42 @@ func ruleG16(c *an.Ctx) {
 		})
 	}
 	n := 0
-	for hd, body := range naturalLoops(fn) {
-		hasKeep := false
-		for b := range body {
-			for _, in := range b.Instrs {
-				if keep(in) {
-					hasKeep = true
-				}
-			}
-		}
-		if !hasKeep {
-			continue
-		}
-		for _, sc := range hd.Succs {
-			if !body[sc] {
-				continue
-			}
-			n++
-			first := sc.Instrs[0]
-			var w *an.Witness
-			if !keep(first) {
-				w = an.Query{Fn: fn, After: first, Target: func(x ssa.Instruction) bool { return x == hd.Instrs[0] }, Barrier: keep,
-					BarrierEdge: func(from, to *ssa.BasicBlock) bool { return !body[to] || shouldRemove(from, to) }}.Find()
-			}
-			c.Check("G16", fmt.Sprintf("element-dropped-only-if-it-refers-to-the-output@removeRefFromExp#%d", n), hd.Instrs[0].Pos(), w == nil,
-				"an element of an array or map literal can be left out of the rebuilt literal without shouldRemoveExpCallRef having said that it refers to the removed output: a literal `null` that the user wrote is dropped as well, an array loses an element and a split loses a fork; "+c.WitnessString(w))
+	hosts := []*ssa.Function{fn}
+	for _, g := range familyOf(c.P, fn, 1) {
+		if g != fn && g.Pkg == fn.Pkg && g.Name() != "shouldRemoveExpCallRef" {
+			hosts = append(hosts, g)
 		}
 	}
-	c.Floor("G16", "element loops of removeRefFromExp", n, 2)
+	for _, fn := range hosts {
+		for hd, body := range naturalLoops(fn) {
+			hasKeep := false
+			for b := range body {
+				for _, in := range b.Instrs {
+					if keep(in) {
+						hasKeep = true
+					}
+				}
+			}
+			if !hasKeep {
+				continue
+			}
+			for _, sc := range hd.Succs {
+				if !body[sc] {
+					continue
+				}
+				n++
+				first := sc.Instrs[0]
+				var w *an.Witness
+				if !keep(first) {
+					w = an.Query{Fn: fn, After: first, Target: func(x ssa.Instruction) bool { return x == hd.Instrs[0] }, Barrier: keep,
+						BarrierEdge: func(from, to *ssa.BasicBlock) bool { return !body[to] || shouldRemove(from, to) }}.Find()
+				}
+				c.Check("G16", fmt.Sprintf("element-dropped-only-if-it-refers-to-the-output@removeRefFromExp#%d", n), hd.Instrs[0].Pos(), w == nil,
+					"an element of an array or map literal can be left out of the rebuilt literal without shouldRemoveExpCallRef having said that it refers to the removed output: a literal `null` that the user wrote is dropped as well, an array loses an element and a split loses a fork; "+c.WitnessString(w))
+			}
+		}
+	}
+	c.Floor("G16", "element loops of removeRefFromExp and its helpers", n, 2)
 }
 
 // V11 (C04): whether a JSON string names a file is decided on the decoded string.
@@ -2301,38 +2384,46 @@ func ruleV11(c *an.Ctx) {
 		return
 	}
 	n, bad := 0, token.NoPos
-	an.Instrs(fn, func(in ssa.Instruction) {
-		var idx ssa.Value
-		var val ssa.Value
-		switch x := in.(type) {
-		case *ssa.IndexAddr:
-			idx, val = x.Index, x
-		case *ssa.Index:
-			idx, val = x.Index, x
-		default:
-			return
+	v11hosts := []*ssa.Function{fn}
+	for _, g := range familyOf(c.P, fn, 1) {
+		if g != fn && g.Pkg == fn.Pkg {
+			v11hosts = append(v11hosts, g)
 		}
-		if nm, _ := derefNamed(val.Type()); nm != "" {
-			_ = nm
-		}
-		// only raw messages / byte slices
-		var elemOK bool
-		switch t := in.(type) {
-		case *ssa.IndexAddr:
-			if sl, ok := t.X.Type().Underlying().(*types.Slice); ok {
-				if b, isB := sl.Elem().Underlying().(*types.Basic); isB && b.Kind() == types.Uint8 {
-					elemOK = true
+	}
+	for _, host := range v11hosts {
+		an.Instrs(host, func(in ssa.Instruction) {
+			var idx ssa.Value
+			var val ssa.Value
+			switch x := in.(type) {
+			case *ssa.IndexAddr:
+				idx, val = x.Index, x
+			case *ssa.Index:
+				idx, val = x.Index, x
+			default:
+				return
+			}
+			if nm, _ := derefNamed(val.Type()); nm != "" {
+				_ = nm
+			}
+			// only raw messages / byte slices
+			var elemOK bool
+			switch t := in.(type) {
+			case *ssa.IndexAddr:
+				if sl, ok := t.X.Type().Underlying().(*types.Slice); ok {
+					if b, isB := sl.Elem().Underlying().(*types.Basic); isB && b.Kind() == types.Uint8 {
+						elemOK = true
+					}
 				}
 			}
-		}
-		if !elemOK {
-			return
-		}
-		n++
-		if !an.IsIntConst(idx, 0) {
-			bad = in.Pos()
-		}
-	})
+			if !elemOK {
+				return
+			}
+			n++
+			if !an.IsIntConst(idx, 0) {
+				bad = in.Pos()
+			}
+		})
+	}
 	c.Check("V11", "file-names-decided-on-decoded-strings@getMaybeFileNames", bad, bad == token.NoPos,
 		"a byte of the raw JSON other than the first is examined to decide whether the value can name a file: an encoder that escapes the slash (\"\\/a\\/b\") or writes it as \\u002f produces a path whose raw bytes look different, the argument is judged to name no files and strict VDR removes them before their consumer starts")
 	c.Floor("V11", "raw byte inspections in getMaybeFileNames", n, 1)
